@@ -653,6 +653,7 @@ def run(ctx):
     if not ok or ctx.failures:
         search(ctx, exes)
     core.init_contract(ctx, ["mpmc_lifo", "mpmc_stack", "dist_fifo", "fiber_multi_signal"])  # rt/h_init.c: real init on dirty memory
+    runtime_layer(ctx)
     core.finish(ctx, extra_assumptions=ASSUME)
 
 
@@ -688,7 +689,41 @@ def corpus(model):
         return []
 
 
+def runtime_layer(ctx):
+    """the multi-waiter signal with REAL fibers (the lock-step model MultiSignal.v covers its double-word-CAS protocol on
+    plain threads; putting the waiter to sleep, publishing READY_TO_WAKE after its switch, waking it and giving its queue
+    node back is runtime code): whole-runtime programs of fiber_multi_signal_wait / _raise (T2 machine of C01); a wait
+    must not return without a raise, every waiter is resumed once, from a saved context."""
+    import random as _r
+    from vf.props import C01
+    exe = C01.build(ctx)
+    if not exe:
+        return
+    rng = _r.Random(ctx.seed * 7919 + 2020)
+    n = 200 if ctx.tier == "quick" else 4000
+    cases = []
+    for _ in range(n):
+        nk = rng.choice([1, 2, 2, 3, 4])
+        progs = [[(rng.choice([19, 19, 19, 20, 20, 1, 3]), rng.randint(0, 1)) for _ in range(rng.randint(1, 5))]
+                 for _f in range(rng.randint(1, 5))]
+        cases.append(core.fmt_case([60000, nk], progs,
+                                   core.random_sched(rng, nk, rng.randint(30, 2000), rng.choice([0, 1, 2, 3]))))
+    impl = core.run_sharded([exe], cases, timeout=900)
+    bad = 0
+    for c, line in zip(cases, impl):
+        why = core.safe_monitor(C01.monitor, c, core.parse_trace(line) if line is not None else None, line)
+        if why:
+            bad += 1
+            if bad <= 3:
+                core.report_violation(ctx, "kernel", c, "multi-waiter signal on the whole runtime: " + why, line)
+    ctx.coverage["multisignal_runtime_layer_t2"] = {"runs": len(cases), "violations": bad}
+    ctx.oblige("multisignal-t2(%d runs)" % len(cases), bad == 0, "%d runs judged a violation" % bad)
+
+
 def replay(ctx, payload):
+    if payload.get("harness") == "kernel":
+        from vf.props import C01
+        return C01.replay(ctx, payload)
     if payload.get("harness") == "h_init":
         return core.replay_init(ctx, payload)
     c = payload.get("case")
